@@ -423,5 +423,6 @@ pub fn c19() -> PropDef<LockCase> {
         run: Arc::new(|c: &LockCase, d: &Path| run_lock_case(c, d)),
         render: Arc::new(|c: &LockCase| json!({"prelude": c.prelude, "ops": c.ops.iter().map(|o| format!("{o:?}")).collect::<Vec<_>>()})),
         minimize: None,
+        shrink_iters: 300,
     }
 }
